@@ -28,6 +28,8 @@ SpPre == << A(207, "indirect_register_pre", FALSE, FALSE) >>
 \* one-operand variants
 Pool1 == { V(sp, <<s>>, {}) : sp \in {<<>>, <<SpReg>>, <<SpNum>>, <<SpInd, SpReg>>, <<SpEmpty>>, <<SpEmpty, SpInd, SpReg>>, <<SpNum, SpEmpty>>, <<SpNumVa, SpReg>>, <<SpPre>>}, s \in Sets1 }
          \cup { V(<<SpReg>>, <<>>, {}), V(<<SpNum, SpReg>>, <<>>, {}), V(<<SpEmpty, SpReg>>, <<>>, {}) }
+         \* one-element disallowed combinations: the register alternative of the set is excluded
+         \cup { V(sp, <<s>>, {<<18>>, <<82>>, <<113>>, <<226>>, <<194>>}) : sp \in {<<>>, <<SpNum>>}, s \in {SA, SE, SG, SN, SL} }
 \* "void": an operand slot with nothing in it (a stray, doubled or leading comma) - no alternative accepts it and it still counts as a slot
 Texts1 == { <<>>, <<"num", "void">>, <<"void", "num">>, <<"r", "void">>, <<"void", "r">> } \cup { <<t>> : t \in {"r", "r2", "[r]", "[r+n]", "[n]", "[[n]]", "r+n", "key", "num", "lab", "{n}", "hexa", "chra", "r++", "@r", "-[r]"} }
 \* two-operand variants
